@@ -1092,6 +1092,12 @@ func (f *Flow) assign(env Env, t *Term, s ISet) {
 		if a != nil && ok {
 			if _, changed := a.wrap(bits, signed); !changed {
 				f.assign(env, t.A, s)
+			} else if sb, ss, okS := intTypeInfo(f.w, t.A.T); okS && sb == bits {
+				// a same-width conversion (int(kind) of an unsigned kind) is a bijection
+				// modulo 2^n: the operand lies in the pre-image of s, which is s re-read in
+				// the operand's type (`int(kind) < len(table)` failing bounds kind itself)
+				nw, _ := s.wrap(sb, ss)
+				f.assign(env, t.A, nw)
 			}
 		}
 	case TBin:
@@ -1108,11 +1114,18 @@ func (f *Flow) assign(env Env, t *Term, s ISet) {
 				f.evalStruct(t, env, &fl)
 				if !fl.Overflow {
 					f.assign(env, t.A, s.mapMono(func(x *big.Int) *big.Int { return new(big.Int).Sub(x, c) }))
+				} else if bits, signed, ok := intTypeInfo(f.w, t.T); ok {
+					// modular arithmetic is a bijection: (x + c) mod 2^n ∈ s ⇔ x ∈ (s - c) mod 2^n
+					nw, _ := s.mapMono(func(x *big.Int) *big.Int { return new(big.Int).Sub(x, c) }).wrap(bits, signed)
+					f.assign(env, t.A, nw)
 				}
 			} else if c, ok := cst(t.A); ok {
 				f.evalStruct(t, env, &fl)
 				if !fl.Overflow {
 					f.assign(env, t.B, s.mapMono(func(x *big.Int) *big.Int { return new(big.Int).Sub(x, c) }))
+				} else if bits, signed, ok := intTypeInfo(f.w, t.T); ok {
+					nw, _ := s.mapMono(func(x *big.Int) *big.Int { return new(big.Int).Sub(x, c) }).wrap(bits, signed)
+					f.assign(env, t.B, nw)
 				}
 			}
 		case token.SUB:
